@@ -18,7 +18,10 @@ LEVEL = "exploration"
 RULE = ("case = generated template set (import library cached per environment, with-context "
         "import, includes, parent with blocks; main templates = 1-3 labelled fragments drawn from: "
         "loop state (index/length/revindex/cycle/changed/previtem/nextitem), nested loops, "
-        "namespace accumulation, imported macros incl. call blocks / local namespace / "
+        "namespace accumulation (namespace(k=v), argument-less namespace() initialised by later "
+        "{% set ns.x %} assignments, namespace(mapping) with a per-render dict / a dict shared by the "
+        "concurrently rendering tasks / a dict literal / mapping + keywords; in the main template, in "
+        "an imported macro and in an included template), imported macros incl. call blocks / local namespace / "
         "cycler+joiner / defaults / recursion, autoescape blocks (constant and data-dependent), "
         "local macros and call blocks, set/filter blocks, with, recursive loops, async filters, "
         "loop filters, top-level assignments, super()/self.block()) x 2-3 tasks (same or different "
@@ -47,6 +50,9 @@ ASSUMPTIONS = [
     "5000)",
     "solo output = render of the same template+data alone in a fresh environment built from the "
     "same sources; cases whose solo render is not repeatable in one environment are skipped",
+    "the mapping `shared_init` handed to namespace(...) is one dict per schedule shared by that "
+    "schedule's tasks (a fresh one for each solo render); namespace() is documented to be "
+    "initialised FROM a mapping, so writes to the namespace must not reach the mapping",
     "module-body races: the gated environment global returns a value that does not depend on the "
     "calling task and the library keeps no mutable state, because the module of an import "
     "without context is cached per environment by documented design; which task evaluates the "
@@ -59,12 +65,16 @@ FLOORS = {
     "quick": {"evaluations": 3000, "distinct": 2500,
               "counters": {"schedules": 2000, "task_outputs_compared": 6000, "cases": 8,
                            "gates_released": 12000, "schedules_fresh_env": 150,
+                           "cases_with_argless_namespace": 2,
+                           "cases_with_namespace_from_data_mapping": 1,
                            "modrace_cases": 6, "modrace_schedules": 800,
                            "modrace_import_while_body_suspended": 500,
                            "modrace_cases_all_orders_enumerated": 3}},
     "thorough": {"evaluations": 120000, "distinct": 120000,
                  "counters": {"schedules": 120000, "task_outputs_compared": 300000, "cases": 70,
                               "gates_released": 1500000, "schedules_fresh_env": 6000,
+                              "cases_with_argless_namespace": 15,
+                              "cases_with_namespace_from_data_mapping": 8,
                               "modrace_cases": 90, "modrace_schedules": 100000,
                               "modrace_import_while_body_suspended": 80000,
                               "modrace_cases_all_orders_enumerated": 70}},
@@ -78,9 +88,15 @@ def make_env(case):
                        autoescape=bool(case["autoescape"]))
 
 
+def new_shared_init():
+    return {"n": 0, "acc": "s"}
+
+
 class TaskData:
-    def __init__(self, spec, gate_at, gate):
+    def __init__(self, spec, gate_at, gate, shared_init=None):
         self.spec = spec
+        # mapping handed to namespace(...): one per schedule, shared by its tasks
+        self.shared_init = shared_init if shared_init is not None else new_shared_init()
         self.calls = 0
         self.gate_at = frozenset(gate_at)
         self.gate = gate
@@ -96,7 +112,8 @@ class TaskData:
     def vars(self):
         s = self.spec
         return {"name": s["name"], "xs": list(s["xs"]), "ys": list(s["ys"]), "skip": s["skip"],
-                "ae": s["ae"], "tree": s["tree"], "g": self.g}
+                "ae": s["ae"], "tree": s["tree"], "g": self.g,
+                "init": {"n": 0, "acc": s["name"]}, "shared_init": self.shared_init}
 
 
 def solo(loop, env, spec):
@@ -116,6 +133,7 @@ async def run_schedule(loop, env, tasks, gates, order):
     """Returns (outputs or exceptions per task, gates released, deviation?)."""
     n = len(tasks)
     waiting = [None] * n
+    shared_init = new_shared_init()
 
     def mk_gate(tid):
         async def gate():
@@ -127,7 +145,7 @@ async def run_schedule(loop, env, tasks, gates, order):
     async def runner(tid):
         gate = mk_gate(tid)
         await gate()
-        td = TaskData(tasks[tid], gates[tid], gate)
+        td = TaskData(tasks[tid], gates[tid], gate, shared_init)
         return await env.get_template(tasks[tid]["main"]).render_async(**td.vars())
 
     ts = [loop.create_task(runner(i)) for i in range(n)]
@@ -268,6 +286,12 @@ def run_case(ctx, case, quick, rng, loop):
     ctx.count("cases_%d_tasks" % len(tasks))
     if len({t["main"] for t in tasks}) < len(tasks):
         ctx.count("cases_sharing_a_main_template")
+    srcs = [case["tpls"][t["main"]] for t in tasks]
+    if any("namespace()" in x or "lib.acc0(" in x or "'inc3.j2'" in x for x in srcs):
+        ctx.count("cases_with_argless_namespace")
+    if any("namespace(init" in x or "namespace(shared_init" in x or "lib.accd(" in x
+           or "namespace(dict(" in x for x in srcs):
+        ctx.count("cases_with_namespace_from_data_mapping")
     for t in tasks:
         src = case["tpls"][t["main"]]
         for lab in sorted({seg.split(GEN.LAB, 1)[0] for seg in src.split(GEN.SEP) if GEN.LAB in seg}):
